@@ -1010,7 +1010,7 @@ func c14WhenCap(u fw.Unit) fw.Result {
 func (c14) Describe(tier string) fw.Description {
 	return fw.Description{
 		Level: "model_checking",
-		Rule: "6 queries (lag with offsets/defaults + latest; acc_sum/count/avg and acc_max-acc_min; had_changed; v - lag(v) with a non-analytic WHERE; unpartitioned lag/acc/latest; WHERE had_changed(...) with acc_count) x all row sequences of length 1..L over 3 partition keys (strings; and float64 keys differing only beyond float32 precision) x v in {1,2,NULL,missing}, through EmitSync on the real engine against per-partition reference state machines; every 5th sequence also through Emit + sync sink (sync == async), every 3rd also with partition a alone (isolation); changed_col(true|false, v) and changed_cols('c_', true, v, w) per partition over all sequences of length <= 5 / 4 over 2 keys x v in {1,2,NULL} (x w in {1,2}); WHEN gating checked over all sequences of length <= 5 over 2 keys x 3 values and of length <= 4 over 2 keys x gate 0|1 x v in {1,2,NULL} with a wrapper expression (values at rows passing WHEN must not depend on rows failing it; a row failing WHEN repeats the partition's previous outputs, NULL included); pairwise collision search over typed partition key tuples (1 and 2 columns: separator-like strings, type-name-like strings, numbers beyond float32/2^53, bools, NULL); partition cap 2 over all 3-key sequences of length 5 (exact within the cap, totality above); non-trivial = the reference defines at least one output",
+		Rule: "6 queries (lag with offsets/defaults + latest; acc_sum/count/avg and acc_max-acc_min; had_changed; v - lag(v) with a non-analytic WHERE; unpartitioned lag/acc/latest; WHERE had_changed(...) with acc_count) x all row sequences of length 1..L over 3 partition keys (strings; and float64 keys differing only beyond float32 precision) x v in {1,2,NULL,missing}, through EmitSync on the real engine against per-partition reference state machines; every 5th sequence also through Emit + sync sink (sync == async), every 3rd also with partition a alone (isolation); changed_col(true|false, v) and changed_cols('c_', true, v, w) per partition over all sequences of length <= 5 / 4 over 2 keys x v in {1,2,NULL} (x w in {1,2}); WHEN gating checked over all sequences of length <= 5 over 2 keys x 3 values and of length <= 4 over 2 keys x gate 0|1 x v in {1,2,NULL} with a wrapper expression (values at rows passing WHEN must not depend on rows failing it; a row failing WHEN repeats the partition's previous outputs, NULL included); pairwise collision search over typed partition key tuples (1 and 2 columns: separator-like strings, type-name-like strings, numbers beyond float32/2^53, bools, NULL); partition cap 2 over all 3-key sequences of length 5 (exact within the cap, totality above; also with a WHEN gate); start/reset arguments of acc_* with overlapping predicates; lag with ignoreNull=false; container-valued columns; wrappers over two analytic calls; an analytic call in WHERE with PARTITION BY and WHEN; non-trivial = the reference defines at least one output",
 		Bounds:      map[string]any{"max_len": map[string]int{"quick": 4, "thorough": 5}, "keys": 3, "values": []string{"1", "2", "NULL", "missing"}},
 		Assumptions: []string{"definitions of lag/latest/had_changed/acc_* taken from the documentation comments of functions/functions_analytical.go and functions/analytic_acc.go (the online analytic docs are not in the repository)", "a first row with NULL under had_changed(true, v) may count as a change or not"},
 	}
